@@ -38,8 +38,12 @@ CHECKS = {
         }, {
             "pkg": BS, "funcs": ["VerifC13PendingQueue"],
             "covers": {"VerifC13PendingQueue": ["replication-in-progress", "saved", "loaded"]},
+        }, {
+            "pkg": BS, "funcs": ["VerifC13SaveFault"],
+            "covers": {"VerifC13SaveFault": ["no-fault", "snapshot-key-write-fails", "queue-key-write-fails", "save-refused", "saved"]},
         }],
         "assumptions": [
+            "error paths (VerifC13SaveFault): a first snapshot is saved, the log grows, a second save runs while the cache write of the snapshot path or of the queue fails: the save reports the error, or - if it reports success - a fresh instance reloads the database held at that save",
             "the loading instance is fresh, or already holds the complete branch under ONE of the saved heads (received from a peer before the snapshot is loaded)",
             "log shapes: empty, single-writer chain of T entries, two writers with concurrent chains of any lengths nb + na = T, replicated (so the replicator's task table is non-empty and the heads have equal or different clock times), optionally merged by a later local write; the real SaveSnapshot, GetQueue, LoadFromSnapshot, NewFromJSON, Join run over an in-memory Unixfs and cache",
             "size clause: every encoded header / entry / queue document has a SYMBOLIC byte length in [2, 2^20]; the snapshot file is a rope of segments with symbolic lengths, length prefixes are computed by the real uint16 conversions and PutUint16/Uint16 on symbolic values; a read at a symbolic offset asks the solver whether offset and length are forced to coincide with a written segment, otherwise the bytes read are unconstrained",
@@ -68,8 +72,13 @@ CHECKS = {
             "max_paths": {"quick": 100000, "thorough": 400000},
             "timeout": {"quick": "15m", "thorough": "90m"},
             "covers": {"VerifSysClose": ["idle", "mid-replication", "mid-write", "parent-cancelled-first", "closed", "later-returned", "reopened"]},
+        }, {
+            "pkg": BS, "funcs": ["VerifC18DropDuring"],
+            "max_paths": {"quick": 60000, "thorough": 400000},
+            "covers": {"VerifC18DropDuring": ["drop-mid-write", "drop-mid-replication", "dropped", "later-returned"]},
         }],
         "assumptions": [
+            "Drop at any moment (VerifC18DropDuring): Drop is started at ANY visible step of a local write or of a replication; Drop and the interrupted operation return, Close after Drop and a later write / load / second Drop return, no store goroutine is left",
             "a real BaseStore with replication enabled over stubs; Close is issued by a concurrent thread at ANY visible operation (lock, channel operation, goroutine start, block/cache effect) of a local write, of a replication (real Sync/replicator/fetcher/Join) or of a Load, or when idle; then Close is repeated 1..2 times; then one later operation (write, load, sync, close)",
             "leak check: at quiescence (decided from the scheduler state) no interpreter thread whose function belongs to go-orbit-db/stores is alive; a thread blocked for ever counts as alive; a main thread blocked for ever is reported as a deadlock",
             "stub contracts: the pubsub topic's watch channels are closed when their context ends; the event bus delivers under its read lock and Subscription.Close drains concurrently (as libp2p's eventbus)",
@@ -139,8 +148,12 @@ CHECKS = {
             "max_paths": {"quick": 60000, "thorough": 600000},
             "timeout": {"quick": "10m", "thorough": "60m"},
             "covers": {"VerifC02RestartRace": ["raced", "healed"]},
+        }, {
+            "pkg": ODB, "funcs": ["VerifC02ThreeWay"],
+            "covers": {"VerifC02ThreeWay": ["c-reconnected", "all-connected"]},
         }],
         "assumptions": [
+            "three replicas (VerifC02ThreeWay): two writers diverge behind cut links (1..2 writes each); the third replica's two links heal back to back, so both head exchanges are queued on its direct channel at once; it holds every write of both; then the writers' link heals and all three agree",
             "closed system of two replicas inside one interpreter, each a real BaseStore with replication enabled over stub pubsub / direct channel and its own block store (blocks of the connected peer are fetchable)",
             "fault plan (symbolic): STEPS steps, each a write on a or b whose announcement (the payload the real handleEventWrite published on the topic) is delivered to the other side or lost, or a restart of a (Close, fresh store over the same cache and blocks, real Load)",
             "final phase: writes stop; each side observes the other joining its topic (EventPubSubJoin on the watcher channel); the payload each real exchangeHeads sends on the direct channel is decoded and handed to the other store's Sync, as baseorbitdb's handler does; run to quiescence",
@@ -154,13 +167,14 @@ CHECKS = {
     "C03": {
         "groups": [{
             "pkg": BS, "funcs": ["VerifC03Forged", "VerifC03LocalWrite"],
-            "covers": {"VerifC03Forged": ["as-head", "as-ancestor", "as-foreign-ref", "id-swap"], "VerifC03LocalWrite": ["allowed", "denied"]},
+            "covers": {"VerifC03Forged": ["as-head", "as-ancestor", "as-foreign-ref", "id-swap"], "VerifC03LocalWrite": ["allowed", "denied", "denied-twice"]},
         }, {"cross_solvers": ["cvc5", "z3-new"], "pkg": ACI, "funcs": ["VerifC03CanAppend"], "covers": {"VerifC03CanAppend": ["decided", "after-genuine"]}},
            {"cross_solvers": ["cvc5", "z3-new"], "pkg": ACS, "funcs": ["VerifC03CanAppend"], "covers": {"VerifC03CanAppend": ["decided", "after-genuine"]}},
            {"pkg": ACO, "funcs": ["VerifC03CanAppend"], "covers": {"VerifC03CanAppend": ["decided", "after-genuine"]}},
            {"pkg": ODB, "funcs": ["VerifC03Instance"],
             "covers": {"VerifC03Instance": ["created", "via-sync", "via-direct-channel", "via-topic", "delivered", "local-write-refused", "opener-passes-own-list", "opener-reuses-parameters"]}}],
         "assumptions": [
+            "a refused local write is repeated: the second attempt returns an error too (nothing, not even a lock, is left behind) and the replication status is untouched",
             "the non-writer opens the restricted database passing access-controller parameters of its own (an explicit list naming itself, or a value it used before to create its own database): the opened store reports and enforces the list recorded at creation",
             "Dolev-Yao attacker with perfect symbolic cryptography: verify(pub, m, s) <=> s = sign(pub, m); the attacker can sign only with its own key, copy any public field (ids, identity blocks, keys, signatures of honest entries) and re-address entries",
             "forged author fields: identity block (own / own with the writer's id - with the attacker's own identity signatures, the id re-signed with the attacker's key and the writer's or the attacker's voucher, or the writer's id signature COPIED with the attacker's or the writer's voucher - / copy of the writer's) x key (own / writer's) x signature (own over the content / copied from an honest writer entry / garbage) x clock id; delivered as an announced head or as the ancestor of a colluding writer's entry to a replica with an explicit write list, through the real Sync, replicator, Join, Entry.Verify, ToHashable and the REAL OrbitDBIdentityProvider.VerifyIdentity",
@@ -174,7 +188,7 @@ CHECKS = {
     "C04": {
         "groups": [{
             "cross_solvers": ["cvc5", "z3-new"], "pkg": BS, "funcs": ["VerifC04Tampered"],
-            "covers": {"VerifC04Tampered": ["as-head", "as-ancestor", "codec-alias"]},
+            "covers": {"VerifC04Tampered": ["as-head", "as-ancestor", "codec-alias", "as-refs-ancestor-behind-held-entries"]},
         }, {
             "pkg": BS, "funcs": ["VerifC04ForeignChain"],
             "params": {"quick": {"F": 3, "H": 3}, "thorough": {"F": 5, "H": 4}},
@@ -184,6 +198,7 @@ CHECKS = {
             "covers": {"VerifC04Snapshot": ["snapshot-rewritten", "impersonates-an-ancestor", "impersonates-the-head", "loaded"]},
         }],
         "assumptions": [
+            "the tampered (re-addressed) entry is also delivered as an ancestor reached through REFS only, behind a next entry the replica already holds",
             "snapshot route (VerifC04Snapshot): the snapshot file of a two-entry log is rewritten (it is referenced from the local cache only): the frame of the ancestor or of the head is replaced by another validly signed entry of the same writer and database that CLAIMS the replaced entry's address; a fresh instance loads it; every merged entry must hash to the address it is listed under",
             "a valid entry of an authorised writer, one field of its wire form replaced (payload by a symbolic byte, clock time by ANY other 64-bit value, clock id, next, refs, key, signature, log id, only the claimed address, or the claimed address replaced by an alias with the same multihash digest and another codec), keeping the claimed address or re-addressed; delivered as an announced head or (re-addressed) as the ancestor of a valid head",
             "content addressing = perfect hash of every wire field except the hash; ancestors are fetched by hash, hence their content is whatever hashes to it; perfect symbolic signatures over the hashable form computed by the real ToHashable/toBuffer",
@@ -218,8 +233,13 @@ CHECKS = {
             "max_paths": {"quick": 60000, "thorough": 600000},
             "timeout": {"quick": "10m", "thorough": "60m"},
             "covers": {"VerifC11Saturated": ["aborted-while-saturated", "newer-head", "retried"]},
+        }, {
+            "pkg": BS, "funcs": ["VerifC11LoadAbort"],
+            "params": {"quick": {"N": 2}, "thorough": {"N": 3}},
+            "covers": {"VerifC11LoadAbort": ["load-cancelled", "load-fetch-failed", "aborted", "reopened", "retried"]},
         }],
         "assumptions": [
+            "load route (VerifC11LoadAbort): a restarted store with two cached heads (own chain of N + replicated concurrent chain of N); the first Load is cancelled at its k-th block read or one block cannot be read; a later Load on the same store or on a store reopened from the same directory makes every entry visible in log and view (the partial-ancestry finding shows on this route too and is carved out the same way)",
             "remote log = chain of N entries or two branches; replication concurrency 1 or 2; request 1 is cancelled before it starts, at the k-th block fetch (k=1..N, i.e. while another worker waits for a slot or in the middle of a fetch) or after the last, and/or one chosen fetch fails; request 2 for the same heads runs with a live context and all blocks available",
             "quiescence decided from the scheduler state",
             "saturated replicator (VerifC11Saturated): ONE fetch slot, two heads (branches of N-1 and 1 entries) announced in either order; the request is cancelled at its first or second block fetch while other workers wait for the slot, and which waiting worker gets the slot / which queued hash it takes is explored under every schedule with at most P preemptions; the later request names the same heads or a NEWER head written on top of both branches; oracle: everything reachable is in the log and the replicator queue is empty",
@@ -244,8 +264,12 @@ CHECKS = {
             "max_paths": {"quick": 60000, "thorough": 800000},
             "timeout": {"quick": "10m", "thorough": "60m"},
             "covers": {"VerifSysHeal": ["write", "healed"]},
+        }, {
+            "pkg": ODB, "funcs": ["VerifC09SlowConnect"],
+            "covers": {"VerifC09SlowConnect": ["control", "A-closed-while-connecting", "A-dropped-while-connecting", "connected"]},
         }],
         "assumptions": [
+            "shared network layer (VerifC09SlowConnect): both stores of one instance ask the instance's one direct channel to connect to the same peer while connecting takes time (gate in the network stand-in); database A is closed or dropped meanwhile; database B's heads still reach the peer",
             "two databases opened by one process: two real BaseStores initialised by InitBaseStore on ONE shared event bus, one pubsub (topics per address, each with a peer so that publications are not suppressed) and one direct channel; replication enabled",
             "a sequence of STEPS actions on database A (local write with symbolic payload; replication of a head written by a remote process; load; A being handed a valid entry that was written for database B), run to quiescence after each",
             "oracle: nothing published on B's topic or sent on the direct channel; B's log, progress and maximum unchanged; every store event observed on the bus carries A's address",
@@ -325,8 +349,12 @@ CHECKS = {
             "params": {"quick": {"N": 2}, "thorough": {"N": 4}},
             "max_paths": {"quick": 60000, "thorough": 400000},
             "covers": {"VerifC16WriteDuringMerge": ["write-event", "replicated-event", "write-during-merge"]},
+        }, {
+            "pkg": DOC, "funcs": ["VerifC16BatchFailure"],
+            "covers": {"VerifC16BatchFailure": ["batch-failed", "batch-succeeded", "checked"]},
         }],
         "assumptions": [
+            "batch paths (VerifC16BatchFailure): PutBatch / PutAll of three documents while the k-th entry block write from now fails once (k in 0..3), the same call retried, then a Delete: every entry the log holds was carried by exactly one write event, emitted when the log holds it, and no event exists without an entry",
             "clause (c) legacy channel API: the real events.EventEmitter (Emit, Subscribe, handleSubscriber with its two buffering goroutines, real container/list, sync.Cond) over the stub bus; N events (N > channel capacity 16); every interleaving of emitter, the two goroutines and the subscriber with at most P preemptions (switch or stall) at visible operations; plus a subscriber that stalls until everything else is blocked and then drains N events",
             "clause (c) a subscriber that goes away (VerifC16LegacyCancel): two subscribers, one never reads and its context ends before the first / half-way / after the last of N=18 emissions while the other keeps reading; quick tier: default schedule with EVERY choice among ready select cases explored (Go picks at random); thorough: every schedule with one preemption; the stub bus mirrors libp2p's wildcard subscriptions (Close unlinks under the bus write lock, does not drain)",
             "clause (c) several subscribers (VerifC16LegacyMulti): two Subscribe channels, a third cancelled half-way and the shared GlobalChannel, with prompt / stalled / quitting readers; each reader that keeps reading receives the N events in order exactly once; cancelled and unsubscribed channels close and no buffering goroutine is left",
